@@ -120,8 +120,31 @@ def build_obligation(inst):
             theta = mk.array("theta", (), graph["carrier"])
             k = graph.get("param_factor", 0) % len(tensors)
             tensors[k] = prod_op(tensors[k], Variable("theta", Real))
+        if variant in ("lazy_factors", "lazy_factors_seq"):
+            # several factors are lookups into free real-array parameters, indexed by the factor's variables and
+            # plates: P_k[v1][v2]...; the lazy result is bound afterwards (at once, or one parameter at a time)
+            from funsor import Reals, Variable
+            which = [k for k in range(len(tensors)) if graph["factors"][k][0] or graph["factors"][k][1]]
+            which = which[: max(2, graph.get("param_factor", 0) % 3 + 2)]
+            binds = {}
+            for k in which:
+                vs, ps = graph["factors"][k]
+                names = list(vs) + list(ps)
+                pv = Variable("P%d" % k, Reals[tuple(arrs[k].shape)])
+                t = pv
+                for nm in names:
+                    t = t[nm]
+                tensors[k] = t
+                binds["P%d" % k] = Tensor(arrs[k])
         try:
-            if variant == "param":
+            if variant in ("lazy_factors", "lazy_factors_seq"):
+                r = SP.sum_product(sum_op, prod_op, tensors, elim, plates)
+                if variant == "lazy_factors":
+                    r = r(**binds)
+                else:
+                    for nm, val in binds.items():
+                        r = r(**{nm: val})
+            elif variant == "param":
                 r = SP.sum_product(sum_op, prod_op, tensors, elim, plates)
                 r = r(theta=Tensor(theta))
             elif variant == "sum_product":
@@ -333,6 +356,7 @@ def instances(tier, seed):
                 out.append(("g", g, rng.choice(["modified", "dynamic"])))
             if rng.random() < 0.4 and (sum_op, prod_op) in (("add", "mul"), ("logaddexp", "add"), ("max", "add")):
                 out.append(("g", dict(g, param_factor=rng.randrange(5)), "param"))
+                out.append(("g", dict(g, param_factor=rng.randrange(5)), rng.choice(["lazy_factors", "lazy_factors_seq"])))
             if rng.random() < 0.1 and set(g["plates"]) - set(g["eliminate"]):
                 out.append(("g", g, "modified_all"))
             if (sum_op, prod_op) in (("add", "mul"), ("logaddexp", "add"), ("max", "add")) and rng.random() < 0.4:
